@@ -103,7 +103,11 @@ func SplitFrame(buf []byte) (frame, rest []byte, ok bool) {
 }
 
 // ParseRequest decodes a request frame body (without the length prefix).
-func ParseRequest(b []byte) (*Frame, error) {
+func ParseRequest(b []byte) (*Frame, error) { return ParseRequestC(b, false) }
+
+// ParseRequestC is ParseRequest for a connection whose cellblocks are
+// block-compressed (snappy) when compressed is true.
+func ParseRequestC(b []byte, compressed bool) (*Frame, error) {
 	f := &Frame{Raw: b, Header: &pb.RequestHeader{}}
 	hb, n := protowire.ConsumeBytes(b)
 	if n < 0 {
@@ -137,6 +141,13 @@ func ParseRequest(b []byte) (*Frame, error) {
 	if cbl != len(b) {
 		return nil, fmt.Errorf("frame: cell_block_meta.length=%d but %d trailing bytes", cbl, len(b))
 	}
+	if compressed && len(b) > 0 {
+		dec, err := BlockStreamDecode(b)
+		if err != nil {
+			return nil, fmt.Errorf("frame: compressed cellblocks: %v", err)
+		}
+		b = dec
+	}
 	cells, err := ReadKVs(b)
 	if err != nil {
 		return nil, err
@@ -147,10 +158,18 @@ func ParseRequest(b []byte) (*Frame, error) {
 
 // EncodeResponse builds a response frame (with length prefix).
 func EncodeResponse(callID uint32, resp proto.Message, exc *pb.ExceptionResponse, cells []KV) []byte {
+	return EncodeResponseC(callID, resp, exc, cells, false)
+}
+
+// EncodeResponseC is EncodeResponse with optionally block-compressed cellblocks.
+func EncodeResponseC(callID uint32, resp proto.Message, exc *pb.ExceptionResponse, cells []KV, compressed bool) []byte {
 	hdr := &pb.ResponseHeader{CallId: &callID, Exception: exc}
 	var cb []byte
 	for _, c := range cells {
 		cb = AppendKV(cb, c)
+	}
+	if compressed && len(cb) > 0 {
+		cb = BlockStreamEncode([][][]byte{{cb}}, SnappyEncodeLiteral)
 	}
 	if len(cb) > 0 {
 		l := uint32(len(cb))
